@@ -164,3 +164,41 @@ func vfH_C08_xor_separate() {
 }
 func vfH_C08_none_inplace()  { vfRoundTrip("none", new(noneBlockCrypt), true) }
 func vfH_C08_none_separate() { vfRoundTrip("none", new(noneBlockCrypt), false) }
+
+// Concurrent callers: Encrypt and Decrypt of one blockCrypt hold different mutexes, so a
+// session's postProcess goroutine encrypts while its read loop decrypts. That is only sound
+// if the two directions share no mutable state. Decided by havoc: the other direction's working
+// buffer holds arbitrary bytes (whatever a concurrent call is in the middle of writing there);
+// the operation must still produce textbook CFB / the round trip (it read nothing from there)
+// and must leave those bytes as they were (it wrote nothing there).
+func vfCFBDirections(bs int) {
+	n := vfCipherLen()
+	blk := vfNewBlock(bs)
+	bc := newBlockCrypt(blk).(*blockCrypt)
+	plain := vfBytes("p", n)
+	want := make([]byte, n)
+	vfSpecCFBEncrypt(blk, want, plain)
+	// a concurrent Decrypt is anywhere in its work: its scratch is arbitrary
+	hd := vfBytes("havoc_dec", len(bc.decbuf))
+	copy(bc.decbuf, hd)
+	ct := make([]byte, n)
+	copy(ct, plain)
+	bc.Encrypt(ct, ct)
+	vfReach("encrypted")
+	for i := 0; i < n; i++ {
+		vfAssert("cfb/concurrent/encrypt-independent-of-the-decrypt-side", ct[i] == want[i])
+	}
+	vfAssert("cfb/concurrent/encrypt-leaves-the-decrypt-side-alone", vfBytesEq(bc.decbuf, hd))
+	// and the other way round
+	he := vfBytes("havoc_enc", len(bc.encbuf))
+	copy(bc.encbuf, he)
+	bc.Decrypt(ct, ct)
+	vfReach("decrypted")
+	for i := 0; i < n; i++ {
+		vfAssert("cfb/concurrent/decrypt-independent-of-the-encrypt-side", ct[i] == plain[i])
+	}
+	vfAssert("cfb/concurrent/decrypt-leaves-the-encrypt-side-alone", vfBytesEq(bc.encbuf, he))
+}
+
+func vfH_C08_cfb8_directions()  { vfCFBDirections(8) }
+func vfH_C08_cfb16_directions() { vfCFBDirections(16) }
